@@ -120,6 +120,7 @@ type c10Req struct {
 	Calls  int
 	After  Stored
 	T      time.Time
+	Fault  string // the storage fault that fired while this request was served ("" = none)
 }
 
 func c10Malform(kind string, body []byte, r *Rng) []byte {
@@ -240,6 +241,13 @@ func c10Exec(t *testing.T, p *Plan) (r *c10Result) {
 		h := http.MaxBytesHandler(bastion.VerifNewHandler(bastion.Config{Logs: logs, WitnessVerifier: witV,
 			Limits: bastion.RequestLimits{TotalPerSecond: rate.Limit(r.rate)}}, cw), 16*1024)
 		tracked := map[string]Stored{}
+		reqFaults := map[int]string{}
+		for _, f := range p.Faults {
+			var i int
+			if _, err := fmt.Sscanf(f.At, "req:%d", &i); err == nil {
+				reqFaults[i] = f.Kind
+			}
+		}
 		rng := NewRng(p.Seed ^ 0xc10)
 		start := time.Now()
 		for _, op := range p.Ops {
@@ -295,7 +303,20 @@ func c10Exec(t *testing.T, p *Plan) (r *c10Result) {
 			rec := httptest.NewRecorder()
 			hr := httptest.NewRequest(http.MethodPost, "/add-checkpoint", bytes.NewReader(cr.Body))
 			hr.RemoteAddr = "bastion:1"
+			if fk := reqFaults[len(r.reqs)]; fk != "" && p.Cfg.Store == "sqlite" {
+				// one storage fault inside the database driver while this request is served (SQLite reporting busy, an I/O error, a full disk)
+				fop, fkind, _ := strings.Cut(fk, "/")
+				crr := cr
+				mainDrvFault = func(op, arg string) error {
+					if op != fop || crr.Fault != "" {
+						return nil
+					}
+					crr.Fault = fk
+					return injected(fkind)
+				}
+			}
 			h.ServeHTTP(rec, hr)
+			mainDrvFault = nil
 			cr.Status, cr.CType, cr.RBody = rec.Code, rec.Header().Get("Content-Type"), rec.Body.Bytes()
 			cr.Calls = len(cw.calls) - before
 			if target != nil {
@@ -342,6 +363,13 @@ func oracleC10(p *Plan, r *c10Result) []Violation {
 			if r.rate >= 1 && (first || silence.Seconds() >= 1/r.rate+0.001) && silence < 1000*time.Hour {
 				add("starved_after_idle", "429_after_silence", i, fmt.Sprintf("request %d came after %v of silence at a configured rate of %v/s and was still pushed back", i, silence, r.rate))
 			}
+			// pushed-back requests are "not processed": they use up nothing. So whenever no request has been SERVED for 1/rate
+			// seconds, any token bucket of that rate holds a whole token again and the next request is not over the rate
+			if r.rate >= 1 && len(served) > 0 {
+				if idle := q.T.Sub(served[len(served)-1]); idle.Seconds() >= 1/r.rate+0.001 && idle < 1000*time.Hour {
+					add("starved_after_idle", "429_without_recent_service", i, fmt.Sprintf("request %d was pushed back although the last request that was served dates back %v at a configured rate of %v/s (requests answered 429 in between were not processed and cannot count against the rate)", i, idle, r.rate))
+				}
+			}
 			continue
 		}
 		served = append(served, q.T)
@@ -365,6 +393,13 @@ func oracleC10(p *Plan, r *c10Result) []Violation {
 			continue
 		}
 		ws := wantStatus[q.Want]
+		if q.Fault != "" && q.Status == 500 {
+			// a storage failure while serving: 500 is the endpoint's answer for it, and nothing may have changed
+			if string(q.After.Raw) != string(q.St.Raw) {
+				add("status_mismatch", "state_changed_on_500", i, fmt.Sprintf("request %d answered 500 (storage fault %s) but the witness state changed", i, q.Fault))
+			}
+			continue
+		}
 		if q.Status != ws {
 			add("status_mismatch", fmt.Sprintf("%s/got=%d/want=%d", q.Want, q.Status, ws), i, fmt.Sprintf("request %d (%s; %s; stored {%s}) answered %d, the protocol says %d (%s)", i, q.Kind, q.Req.Desc, cpBrief(q.St), q.Status, ws, q.Want))
 			continue
@@ -429,7 +464,7 @@ func init() {
 				if o.K != "update" {
 					continue
 				}
-				if o.M == "unknownlog" || o.M == "crosslog" || o.M == "xsig_unknown" {
+				if o.M == "unknownlog" || o.M == "crosslog" || o.M == "xsig_unknown" || o.M == "prime_other" {
 					o.M = ""
 				}
 				if r.Chance(0.12) {
@@ -445,6 +480,20 @@ func init() {
 					p.Ops = append(p.Ops, Op{K: "jump", Ms: int64(Pick(r, 1, 999, 1000, 1001, 60000, 3600000))})
 				}
 				p.Ops = append(p.Ops, o)
+			}
+			if p.Cfg.Store == "sqlite" && r.Chance(0.5) {
+				// storage faults inside the database driver while a request is being served
+				p.Cfg.Seam = "driver" // = open the store through the fault-injecting driver
+				nreq := 0
+				for _, o := range p.Ops {
+					if o.K == "jump" {
+						continue
+					}
+					if r.Chance(0.2) {
+						p.Faults = append(p.Faults, Fault{At: fmt.Sprintf("req:%d", nreq), Kind: Pick(r, "Begin", "Query", "Next", "Next", "Exec", "Commit", "Rollback") + "/" + Pick(r, "busy", "locked", "ioerr", "full", "plain")})
+					}
+					nreq++
+				}
 			}
 			return p
 		},
@@ -467,6 +516,10 @@ func init() {
 					out.Distinct = append(out.Distinct, fmt.Sprintf("%s/%d/%s/%s", q.Want, q.Status, st, p.Cfg.Store))
 				}
 				out.Stats.Probes[fmt.Sprintf("status_%d", q.Status)]++
+				out.Stats.Probes["want_"+q.Want]++
+				if q.Fault != "" {
+					out.Stats.Fired["storage_fault_while_serving/"+q.Fault]++
+				}
 				if q.Status == 429 {
 					out.Stats.Fired["rate_limit_pushback"]++
 				}
